@@ -86,7 +86,35 @@ class Runner:
         return {"ev": self.ev, "plan": {"probes": [p.hex() for p in self.probes], "calls": self.calls}}
 
 
+RIGHT_COMB = [0x00, 0x80, 0xC0, 0xE0, 0xF0, 0xF8, 0xFC, 0xFE, 0xFF]
+
+
+def gen_comb_trace(mod, rng):
+    """nine keys P+b whose last bytes make every one of the eight bit levels below P a BRANCH node
+    along the all-ones (or, mirrored, the all-zeros) path: a lookup of the proper prefix P then ends
+    exactly at a branch that is followed by branches only, down to a leaf"""
+    prefix = bytes(rng.choice(ALPHA) for _ in range(rng.choice([1, 1, 2])))
+    lasts = RIGHT_COMB if rng.random() < 0.5 else [b ^ 0xFF for b in RIGHT_COMB]
+    keys = [prefix + bytes([b]) for b in lasts]
+    rng.shuffle(keys)
+    probes = sorted(set(keys) | {prefix, prefix + b"\xff\x00", prefix[:-1] + bytes([prefix[-1] ^ 1])})
+    r = Runner(mod, probes)
+    for k in keys:
+        r.apply("set", k, val(rng.choice([0x61, 0x80, 0xC8]), rng.choice([1, 2, 40])))
+    for _ in range(rng.randint(1, 6)):
+        x = rng.random()
+        if x < 0.4:
+            r.apply("set", rng.choice(probes), val(0x62, 2))
+        elif x < 0.8:
+            r.apply("del", rng.choice(probes), b"")
+        else:
+            r.apply("delsub", rng.choice(probes), b"")
+    return r.trace()
+
+
 def gen_trace(mod, rng):
+    if rng.random() < 0.12:
+        return gen_comb_trace(mod, rng)
     pool = set()
     for _ in range(rng.choice([3, 4, 6])):
         k = bytes(rng.choice(ALPHA) for _ in range(rng.choice([1, 1, 2, 2, 3, 4])))
